@@ -71,6 +71,9 @@ class ArithmeticSequence(Generic[T]):
         return 0.5 * count * (2 * self.initial_term + (count - 1) * self.difference) * expr
 
     def get_prod(self, expr: TExpr[T], count: TExpr[T], backend: SymbolicBackend[T]) -> TExpr[T]:
+        if self.difference == 0:
+            # A constant progression: every factor is initial_term * expr (the closed form below has a pole there).
+            return (self.initial_term * expr) ** count
         gamma = backend.func("gamma")
         return (
             self.difference**count
